@@ -49,7 +49,7 @@ func (e *engine) Info() core.Info {
 			"the multiset model and the oracle's own distance/intersection predicates (written independently of index/rtree/geom.go) are correct",
 			"structural invariants are read through the add-only verif hook index/rtree/walk_verif.go (read-only walk)",
 		},
-		QuickRuns: 60000, ThoroughRuns: 2500000, QuickWallS: 75, ThoroughWallS: 1500,
+		QuickRuns: 50000, ThoroughRuns: 2500000, QuickWallS: 80, ThoroughWallS: 1500,
 	}
 	if e.prop == "C11" {
 		in.Rule = "a case is one seeded history (<=400 ops, one run in 300 up to 7000 ops: insert (also of an already stored object), delete present/absent, intersect queries, over phases grow/churn/drain/drain-all/refill, random branching parameters 2<=min<=max/2, grid or float coordinates, pointer/point/degenerate objects, fan-outs up to 140, and one history in twelve insert-only over slice-typed (uncomparable) geometries); non-trivial = the tree reached depth>=2 AND at least one delete of a stored object happened on a multi-level tree; distinct = distinct hash of the full operation+result log"
@@ -66,6 +66,11 @@ type stored struct {
 }
 
 type run struct {
+	forceWalk bool
+	mixed     bool // coordinates of very different magnitudes within one tree
+	ring      bool // most objects are points on one circle (equidistant from its centre)
+	huge      bool // tens of thousands of objects, very large fan-out, checks at the end only
+	ringR     float64
 	// an earlier answer must stay the answer it was: the slice a query
 	// returned is kept, with a copy, and re-examined after later operations
 	heldRes  []geom.Geom
@@ -128,6 +133,11 @@ func (r *run) fail(class, detail, format string, a ...interface{}) {
 }
 
 func (r *run) coord(label string) float64 {
+	if r.mixed {
+		// one tree, magnitudes from 1e-8 to 1e9
+		m := []float64{1e-8, 1e-3, 1, 1, 1e3, 1e9}[r.t.Choose(6, "coord-mag")]
+		return float64(r.t.Choose(40, label)) * m
+	}
 	if r.grid > 0 {
 		return float64(r.t.Choose(r.grid, label)) * r.scale
 	}
@@ -142,6 +152,17 @@ func (r *run) newObj() stored {
 	kind := r.t.Choose(4, "obj-kind") // 0 box ptr, 1 point value, 2 degenerate box ptr, 3 copy of an existing box (coincident)
 	id := r.next
 	r.next++
+	if r.ring && !r.slices && !r.t.OneIn(8, "ring-off") {
+		// a point on the circle of radius ringR around (0,0): equidistant from
+		// the centre, so that nothing can be pruned for queries there
+		a := float64(r.t.Choose(100000, "ring-angle")) * 2 * math.Pi / 100000
+		p := geom.Point{X: r.ringR * math.Cos(a), Y: r.ringR * math.Sin(a)}
+		return stored{obj: p, bb: geom.Bounds{Min: p, Max: p}, id: id}
+	}
+	// (empty geometries are deliberately not generated: their box contains no
+	// point, index/rtree on the unchanged tree cannot choose a node for them
+	// once a subtree holds nothing else, and the properties quantify over
+	// objects that have a box)
 	if r.slices {
 		// a slice-typed geometry stored by value: cannot be compared with ==
 		// (so it can never be deleted), but is a legal object to insert and find
@@ -270,6 +291,28 @@ func (r *run) exec() {
 		r.scale = []float64{1, 1, 0.125, 0.1, 1.0 / 3, 1000}[t.Choose(6, "cfg-scale")]
 	}
 	r.slices = t.OneIn(12, "cfg-uncomparable-objects")
+	r.mixed = t.OneIn(15, "cfg-mixed-magnitudes")
+	if r.mixed {
+		r.grid = 0
+		r.res.Probe("mixed-magnitude-history")
+	}
+	if t.OneIn(12, "cfg-ring") {
+		r.ring, r.ringR = true, []float64{1, 100, 0.5, 1000}[t.Choose(4, "cfg-ring-r")]
+		r.res.Probe("ring-history(equidistant objects)")
+	}
+	if r.ring && r.max >= 64 {
+		// equidistant objects AND a fan-out above 64: make the history long
+		// enough for nodes to really hold that many children
+		r.bulk = true
+	}
+	if t.OneIn(25000, "cfg-huge") {
+		// far beyond the usual sizes: a fan-out of several hundred and enough
+		// objects for a node to really hold that many children
+		r.huge, r.slices, r.mixed = true, false, false
+		r.max = []int{300, 400, 512}[t.Choose(3, "cfg-huge-max")]
+		r.min = 2
+		r.res.Probe("huge-history(fan-out>=300, ~90k objects)")
+	}
 	r.log.Eventf("config min=%d max=%d grid=%d scale=%g uncomparable=%v", r.min, r.max, r.grid, r.scale, r.slices)
 	if r.slices {
 		r.res.Probe("history-with-uncomparable-objects(insert-only)")
@@ -282,7 +325,7 @@ func (r *run) exec() {
 	if r.max >= 30 {
 		budget = 700 + 6*r.max // large fan-outs need more objects before anything splits
 	}
-	if t.OneIn(300, "cfg-bulk") {
+	if t.OneIn(300, "cfg-bulk") || r.bulk {
 		// a long history (thousands of objects): three and more levels also
 		// for large fan-outs; the O(n) structural walk runs on every 61st
 		// mutation only (Size, Delete results and queries are still checked
@@ -293,6 +336,11 @@ func (r *run) exec() {
 	}
 	ops := 0
 	r.afterOp("init")
+	if r.huge {
+		r.hugeRun()
+		r.res.Steps = int64(len(r.model))
+		return
+	}
 	if deep := t.OneIn(3, "cfg-deep-churn"); !r.bulk && !r.slices && r.max <= 8 && (deep || forceDeep) {
 		// deep-churn shape: fill a small-fan-out tree to 50-130 objects (four
 		// and more levels), then churn at that population — elimination
@@ -389,6 +437,48 @@ func (r *run) exec() {
 		}
 	}
 	r.res.Steps = int64(ops)
+}
+
+// hugeRun inserts ~90 000 objects without per-operation checks, then runs the
+// full structural walk once and a handful of queries, deletes a few hundred
+// objects and checks again.
+func (r *run) hugeRun() {
+	n := 80000 + r.t.Choose(20000, "huge-n")
+	r.bulk = true
+	for i := 0; i < n && r.res.Viol == nil && r.res.Aborted == ""; i++ {
+		s := r.newObj()
+		p, v, st := core.Protect(func() { r.tree.Insert(s.obj) })
+		if p {
+			r.mutPanic("Insert", v, st)
+			return
+		}
+		r.model = append(r.model, s)
+	}
+	r.log.EventInts("huge-inserted", int64(len(r.model)))
+	r.bulk = false
+	r.walkNow("insert")
+	for i := 0; i < 12 && r.res.Viol == nil && r.res.Aborted == ""; i++ {
+		r.query()
+	}
+	for i := 0; i < 300 && r.res.Viol == nil && r.res.Aborted == ""; i++ {
+		r.bulk = true
+		r.deletePresent(0)
+	}
+	r.bulk = false
+	r.walkNow("delete")
+	for i := 0; i < 8 && r.res.Viol == nil && r.res.Aborted == ""; i++ {
+		r.query()
+	}
+}
+
+// walkNow forces the full structural walk regardless of the sampling rule.
+func (r *run) walkNow(op string) {
+	if r.res.Viol != nil || r.res.Aborted != "" {
+		return
+	}
+	r.forceWalk = true
+	r.afterOp(op)
+	r.forceWalk = false
 }
 
 func (r *run) insert() {
@@ -578,7 +668,7 @@ func (r *run) afterOp(op string) {
 	if r.bulk {
 		every = 61
 	}
-	if op != "init" && every > 1 {
+	if op != "init" && every > 1 && !r.forceWalk {
 		if r.nMut%every != 0 {
 			// cheap checks only
 			if r.prop == "C11" {
@@ -821,6 +911,12 @@ func (r *run) queryBox() geom.Bounds {
 
 func (r *run) queryPoint() geom.Point {
 	t := r.t
+	if r.ring && t.Bool("p-ring-centre") {
+		if t.Bool("p-ring-exact") {
+			return geom.Point{}
+		}
+		return geom.Point{X: (t.Unit("p-ring-dx") - 0.5) * r.ringR * 0.01, Y: (t.Unit("p-ring-dy") - 0.5) * r.ringR * 0.01}
+	}
 	switch t.Choose(4, "p-kind") {
 	case 0: // on a stored box border / corner
 		if len(r.model) > 0 {
@@ -1063,7 +1159,7 @@ func (r *run) kNearest() {
 	default:
 		k = 1 + r.t.Choose(r.max+2, "k")
 	}
-	if len(r.model) > 150 && k > 40 && !r.t.OneIn(25, "k-huge-on-big-tree") {
+	if len(r.model) > 150 && k > 40 && (r.huge || len(r.model) > 3000 || !r.t.OneIn(25, "k-huge-on-big-tree")) {
 		// NearestNeighbors allocates two k-slices per candidate: k ~ n on a
 		// tree of a thousand objects costs megabytes per query; keep such
 		// queries rare
